@@ -235,10 +235,15 @@ def eval_table_case(case, fail):
             and np.all(qx < 0.5 - 1e-6) and np.all(qz < 0.5 - 1e-6):
         from panqec.decoders import MatchingDecoder
         dec = MatchingDecoder(code, em, p)
+        # the one-sector decoders get the same prior for the sector they decode
+        dec_x = MatchingDecoder(code, em, p, error_type='X')
+        dec_z = MatchingDecoder(code, em, p, error_type='Z')
         Hz = gf2.to_dense(code.Hz)
         Hx = gf2.to_dense(code.Hx)
         for nm, matcher, Hs, ref in (('x', dec.matcher_x, Hz, np.log((1 - qx) / qx)),
-                                     ('z', dec.matcher_z, Hx, np.log((1 - qz) / qz))):
+                                     ('z', dec.matcher_z, Hx, np.log((1 - qz) / qz)),
+                                     ('x (error_type=X)', dec_x.matcher_x, Hz, np.log((1 - qx) / qx)),
+                                     ('z (error_type=Z)', dec_z.matcher_z, Hx, np.log((1 - qz) / qz))):
             reported = {}
             for u_, v_, attr in matcher.edges():
                 for f in attr['fault_ids']:
